@@ -207,7 +207,7 @@ class Src:
         for c in self.caps:
             r = rng.random()
             if big_index and r < 0.5:
-                self.next[c] = rng.choice([U32 - 3, U32 - 1, U32, 2 * U32 - 2, 5 * U32 + 7, U64 - 4000])
+                self.next[c] = rng.choice([U32 - 3, U32 - 1, U32, 2 * U32 - 2, 5 * U32 + 7, U64 - 2_000_000])
             elif r < 0.2:
                 self.next[c] = rng.randrange(0, 100000)
             else:
@@ -216,6 +216,7 @@ class Src:
     def take(self, cap=None):
         c = cap or self.rng.choice(self.caps)
         i = self.next[c]
+        assert i < U64 - 8, "packet index generator overflow"
         self.next[c] = i + 1 + (self.rng.randrange(0, 3) if self.rng.random() < 0.3 else 0)
         return [c, i]
 
